@@ -252,25 +252,55 @@ Theorem C06_late_gene_link_sound : forall regs g i, In i (link_hits regs g) ->
 Proof. exact link_hits_sound. Qed.
 Print Assumptions C06_late_gene_link_sound.
 
-(* ... but "each gene points to the region containing it, whether it was added before or after the areas" (a clause
-   of C08, whose theorem C08_link_window proves it for regions that do not span the origin) is false next to an
-   origin-spanning region (finding late_gene_origin_region_unlinked): on a circular record of 1000 the sub-regions
-   900..50, 100..200, 400..500, 600..700 give four regions; the gene 950..980 lies inside the first one and the window
-   holds no region containing it, while the gene 10..40 (after the origin) is found *)
-Theorem C06_late_gene_link_refuted :
-  exists N supply regs r g, record_regions N true supply = Ok regs /\ In r regs /\
-    contains (rloc r) g = true /\ link_hits (map rloc regs) g = [].
-Proof. exact late_gene_refuted. Qed.
-Print Assumptions C06_late_gene_link_refuted.
+(* ... and to every one: "each gene points to the region containing it, whether it was added before or after the
+   areas" (a clause of C08).  Formerly C06_late_gene_link_refuted (finding late_gene_origin_region_unlinked, repaired:
+   _link_cds_to_parent also looks at region 0 when that region crosses the origin and the slice does not start there).
+   For EVERY record length, supply of candidate clusters and sub-regions and region list that create_regions builds from
+   them on a record without regions - origin-spanning areas included - whose region locations are well-formed (reg_ok:
+   one non-empty part inside the record, or the two parts [s, N) + [0, e) with 0 < e <= s < N; a decidable test of the
+   output that the harness applies to every region list of the implementation): the list has the layout `lay` (at most
+   one region crosses the origin, it is the first, the others are one-part, ascending and pairwise disjoint between its
+   two parts), and (1) every non-empty one-part gene added afterwards is given to the region that contains it, wherever
+   that region is in the list; (2) a gene of ANY shape (multi-exon, origin-crossing) inside a region that crosses the
+   origin is given to that region, which is region 0.  Not proved: multi-part genes inside a one-part region; that the
+   locations connect_locations builds always pass reg_ok (C04's subject; tested on every run). *)
+Theorem C06_late_gene_link_complete : forall N circular cands subs regs,
+  create_regions N circular [] cands subs = Ok regs -> Forall (fun r => reg_ok N (rloc r)) regs ->
+  lay N (map rloc regs) /\
+  (forall pg i r, ps pg < pe pg -> nth_error regs i = Some r -> contains (rloc r) [pg] = true ->
+     In i (link_hits (map rloc regs) [pg])) /\
+  (forall g i r, nth_error regs i = Some r -> bridges (rloc r) = true -> contains (rloc r) g = true ->
+     i = 0%nat /\ In i (link_hits (map rloc regs) g)).
+Proof.
+  intros N circular cands subs regs H Hok. split; [|split].
+  - exact (create_regions_lay N circular cands subs regs H Hok).
+  - exact (late_gene_complete N circular cands subs regs H Hok).
+  - exact (late_gene_complete_crossing N circular cands subs regs H Hok).
+Qed.
+Print Assumptions C06_late_gene_link_complete.
 
-(* the witness in full: both genes lie inside the first region; the one before the origin is missed, the one after it is
-   found at position 0 *)
+(* the layout alone is enough, however the list was built (add_region by hand, re-creation after a clear) *)
+Theorem C06_late_gene_link_layout : forall N regs pg i r, lay N regs -> ps pg < pe pg ->
+  nth_error regs i = Some r -> contains r [pg] = true -> In i (link_hits regs [pg]).
+Proof. exact link_hits_complete. Qed.
+Print Assumptions C06_late_gene_link_layout.
+
+(* add_region keeps that layout: a record whose region list has it, after any accepted add_region of a well-formed region *)
+Theorem C06_add_region_keeps_layout : forall N regs r regs', lay N (map rloc regs) -> reg_ok N (rloc r) ->
+  add_region N regs r = Ok regs' -> lay N (map rloc regs').
+Proof. exact lay_add_region. Qed.
+Print Assumptions C06_add_region_keeps_layout.
+
+(* the witness of the repaired finding in full: ring of 1000, sub-regions 900..50, 100..200, 400..500, 600..700; the late
+   genes 950..980 (before the origin; linked to nothing before the repair) and 10..40 (after it) go to region 0, 120..150
+   to region 1, 300..320 to none *)
 Example C06_late_gene_link_example :
   let sub i l := mkCA i 0 l in
   let supply := [sub 0 [mkPart 900 1000 1; mkPart 0 50 1]; sub 1 [mkPart 100 200 1]; sub 2 [mkPart 400 500 1];
                  sub 3 [mkPart 600 700 1]] in
-  exists regs r, record_regions 1000 true supply = Ok regs /\ In r regs /\
-    contains (rloc r) [mkPart 950 980 1] = true /\ contains (rloc r) [mkPart 10 40 1] = true /\
-    link_hits (map rloc regs) [mkPart 950 980 1] = [] /\
-    link_hits (map rloc regs) [mkPart 10 40 1] = [0%nat].
+  exists regs, record_regions 1000 true supply = Ok regs /\ Forall (fun r => reg_ok 1000 (rloc r)) regs /\
+    link_hits (map rloc regs) [mkPart 950 980 1] = [0%nat] /\
+    link_hits (map rloc regs) [mkPart 10 40 1] = [0%nat] /\
+    link_hits (map rloc regs) [mkPart 120 150 1] = [1%nat] /\
+    link_hits (map rloc regs) [mkPart 300 320 1] = [].
 Proof. exact late_gene_witness. Qed.
